@@ -681,6 +681,11 @@ func (mvcc *MVCCLevelDB) pessimisticLockMutation(batch *leveldb.Batch, mutation 
 			}
 			return dec.lock.lockErr(mutation.Key)
 		}
+		if dec.lock.op != kvrpcpb.Op_PessimisticLock {
+			// The key is already prewritten by this transaction: the request is stale, and replacing the
+			// prewrite lock by a pessimistic lock would lose its value. TiKV answers LockTypeNotMatch.
+			return ErrAbort("lock type not match: the key is already prewritten by this transaction")
+		}
 	}
 
 	// For pessimisticLockMutation, check the corresponding rollback record, there may be rollbackLock
